@@ -58,3 +58,14 @@ Lemma f19_facts :
   types_equal_res f19_reg 0 4 = Ok false /\
   generate f19_reg f19_s (types_equal f19_reg) = Err (EDuplicatePath "a::D").
 Proof. repeat split; vm_compute; reflexivity. Qed.
+
+Lemma f19b_RegistryOf : RegistryOf f19b_defs (label_at f19b_labels) f19b_reg.
+Proof. apply registry_ofb_sound; vm_compute; reflexivity. Qed.
+
+Lemma f19b_facts :
+  instantiation_cf f19b_defs (nth 0 f19b_defs pe_default) f19b_args1 = true /\
+  instantiation_cf f19b_defs (nth 0 f19b_defs pe_default) f19b_args2 = true /\
+  skeleton_consistentb f19b_reg f19_s = true /\
+  types_equal_res f19b_reg 0 7 = Ok false /\ types_equal_res f19b_reg 7 0 = Ok false /\
+  generate f19b_reg f19_s (types_equal f19b_reg) = Err (EDuplicatePath "a::D").
+Proof. repeat split; vm_compute; reflexivity. Qed.
